@@ -525,10 +525,14 @@ class Interp:
                 # module-level constant (table, tuple of regexes ...): evaluated once, lazily
                 if e.id not in self._lazy:
                     from .core import const_eval, NotConstant
-                    try:
-                        self._lazy[e.id] = const_eval(self.mod, self.mod.assigns[e.id][0])
-                    except Exception:
-                        self._lazy[e.id] = self.eval(self.mod.assigns[e.id][0], {})
+                    node0 = self.mod.assigns[e.id][0]
+                    if (isinstance(node0, ast.Dict) and not node0.keys) or (isinstance(node0, ast.List) and not node0.elts):
+                        self._lazy[e.id] = self.eval(node0, {})        # an empty module-level container is mutable state (a cache): a heap object
+                    else:
+                        try:
+                            self._lazy[e.id] = const_eval(self.mod, node0)
+                        except Exception:
+                            self._lazy[e.id] = self.eval(node0, {})
                 return self._lazy[e.id]
             if e.id in ('set', 'frozenset', 'sorted', 'any', 'all', 'zip', 'abs', 'sum', 'map', 'filter'):
                 return ('builtin', e.id)
@@ -814,10 +818,16 @@ class Interp:
             args = self.eval_args(e, env)
             if e.keywords and not (isinstance(base, tuple) and base and base[0] in ('module', 'hostattr')) and not (isinstance(base, AList) and f.attr == 'sort'):
                 self.bad(e, 'keyword arguments in a method call')
-            if e.keywords:
-                self._kwargs = {kw.arg: self.eval(kw.value, env) for kw in e.keywords if kw.arg}
-            else:
-                self._kwargs = {}
+            self._kwargs = {}
+            for kw in e.keywords:
+                if kw.arg:
+                    self._kwargs[kw.arg] = self.eval(kw.value, env)
+                else:
+                    extra = self.eval(kw.value, env)
+                    extra = extra.d if isinstance(extra, ADict) else extra
+                    if not isinstance(extra, dict) or not all(isinstance(k, str) for k in extra):
+                        self.bad(e, '** argument that is not a dict with text keys')
+                    self._kwargs.update(extra)
             return self.call_method(base, f.attr, args, e)
         if isinstance(f, ast.Name) and f.id in self.oracles and f.id not in env:
             return self.oracles[f.id](self.eval_args(e, env), e)
@@ -826,8 +836,21 @@ class Interp:
         kwargs = {}
         for kw in e.keywords:
             if kw.arg is None:
-                self.bad(e, '** argument')
+                extra = self.eval(kw.value, env)
+                extra = extra.d if isinstance(extra, ADict) else extra
+                if not isinstance(extra, dict) or not all(isinstance(k, str) for k in extra):
+                    self.bad(e, '** argument that is not a dict with text keys')
+                kwargs.update(extra)
+                continue
             kwargs[kw.arg] = self.eval(kw.value, env)
+        if kwargs and isinstance(fn, tuple) and fn and fn[0] == 'class':
+            return Sym('instance', fn[1], tuple(args), tuple(sorted(kwargs.items(), key=lambda kv: kv[0])))
+        if kwargs and isinstance(fn, tuple) and fn and fn[0] == 'hostattr':
+            self._kwargs = kwargs
+            r = self.call_value_hook(fn, args, e)
+            self._kwargs = {}
+            if r is not NotImplemented:
+                return r
         if kwargs and not isinstance(fn, ModuleFunc):
             self.bad(e, 'keyword arguments outside the subset')
         if isinstance(fn, tuple) and fn[0] == 'builtin':
@@ -1116,8 +1139,17 @@ class Interp:
                 raise RaiseSig(type(exc).__name__, (str(exc),), e)
             self.bad(e, f'match method {m}')
         if isinstance(base, ARegex) and m in ('match', 'search', 'fullmatch', 'sub', 'split', 'findall') and args and \
-                isinstance(args[1] if m == 'sub' and len(args) > 1 else args[0], str) and not (m == 'sub' and not isinstance(args[0], str)):
+                isinstance(args[1] if m == 'sub' and len(args) > 1 else args[0], str):
             rx = self.host_regex(base, e)
+            if m == 'sub' and not isinstance(args[0], str):
+                fn = args[0]
+
+                def repl(mo):
+                    r = self.apply(fn, [CMatch(mo, base)], e)
+                    if not isinstance(r, str):
+                        raise Unrecognised(self.rule, f'replacement function returns the non-text value {r!r}', self.mod.rel)
+                    return r
+                return rx.sub(repl, args[1], *[a for a in args[2:] if isinstance(a, int)])
             if m in ('match', 'search', 'fullmatch'):
                 if not all(isinstance(a, int) and not isinstance(a, bool) for a in args[1:]):
                     raise RaiseSig('TypeError', ('pos/endpos must be integers',), e)
